@@ -168,6 +168,7 @@ func init() {
 		yOrphanRevs
 		yStatusConflict
 		yCacheLosesSet
+		ySelectorShapes
 	)
 	const (
 		nC10 = 1 << iota
@@ -218,6 +219,8 @@ func init() {
 				[]string{"reconcile never panics"}, []string{"reconcile returned"}),
 			syncRun("sync-conflict-and-cache-miss", []int{1, 1, 0, yStatusConflict | yCacheLosesSet | yHealthDims, nC15}, []int{2, 2, 1, yStatusConflict | yCacheLosesSet | yHealthDims, nC15},
 				[]string{"reconcile never panics"}, []string{"the set leaves the cache during the reconcile", "fault injected at set.updateStatus"}),
+			syncRun("sync-selector-shapes", []int{1, 1, 0, yUndefaulted | ySelectorShapes, nC15}, []int{2, 1, 0, yUndefaulted | ySelectorShapes | yHealthDims, nC15},
+				[]string{"reconcile never panics"}, []string{"empty selector", "DoesNotExist selector"}),
 		},
 		Stubs:        ctlStubs,
 		Assumptions:  []string{"replicas and revisionHistoryLimit are non-nil (the CRD schema requires/defaults them)", "getPatch/ApplyRevision models as in C03"},
@@ -330,7 +333,17 @@ func init() {
 		OutsideClaim: []string{"sequences of several events", "the real rate-limiting queue"},
 	})
 
-	helperStubs := map[string]string{
+	rtRun := func(area int, what string) runSpec {
+		return runSpec{Name: fmt.Sprintf("round-trip-area%d", area), Pkg: pkgHelper, Func: "VH_RoundTrip", Quick: []int{area}, Thorough: []int{area},
+			Bounds: func(a []int) string {
+				return "FromBuiltinStatefulSet then ToBuiltinStatefulSet (real code) on a built-in StatefulSet varied over " + what
+			},
+			Asserts: []string{"read back equals what was written in every modelled field", "conversion to the Advanced API never fails", "conversion to the built-in API never fails", "the object read back is typed apps/v1", "metadata survives the conversion", "status survives the conversion"},
+			Covers:  []string{fmt.Sprintf("round trip area %d", area)}}
+	}
+	// the conversions used to be replaced by hand-written models; they now run for real over the
+	// engine's structural JSON model (symgo/jsonmodel.go)
+	_ = map[string]string{
 		pkgHelper + ".FromBuiltinStatefulSet": "vFromBuiltinModel",
 		pkgHelper + ".ToBuiltinStatefulSet":   "vToBuiltinModel",
 	}
@@ -339,17 +352,17 @@ func init() {
 		Runs: []runSpec{
 			{Name: "upgrade", Pkg: pkgHelper, Func: "VH_Upgrade", Quick: []int{2, 1, 3}, Thorough: []int{3, 2, 3},
 				Bounds: func(a []int) string {
-					return fmt.Sprintf("0..%d revisions of the set plus one foreign revision, Advanced object pre-existing or not, selector = matchLabels (1 or 2 keys) or matchLabels+matchExpressions, %d interrupted run(s) each failing (5 error kinds) or crashing at any API call, then one clean run", a[0], a[1])
+					return fmt.Sprintf("0..%d revisions of the set plus one foreign revision, Advanced object pre-existing or not, the set at 3 replicas or scaled to zero, selector = matchLabels (1 or 2 keys) or matchLabels+matchExpressions, %d interrupted run(s) each failing (5 error kinds) or crashing at any API call, then one clean run", a[0], a[1])
 				},
 				Asserts: []string{"the built-in set is deleted with orphan propagation", "an Advanced StatefulSet exists before the built-in one is removed", "same spec", "same status",
 					"every revision of the set carries the upgrade marker", "selector labels are removed from every revision of the set", "the built-in set is gone exactly when the helper reported success"},
-				Covers: []string{"built-in delete issued", "upgrade completed", "crash injected", "advanced object pre-exists"}},
+				Covers: []string{"built-in delete issued", "upgrade completed", "crash injected", "advanced object pre-exists", "set scaled to zero"}},
 			{Name: "upgrade-expression-selector", Pkg: pkgHelper, Func: "VH_Upgrade", Quick: []int{1, 0, 4}, Thorough: []int{2, 1, 4},
 				Bounds:  func(a []int) string { return "as above including a selector made of matchExpressions only" },
 				Asserts: []string{"selector labels are removed from every revision of the set"}},
 		},
-		Stubs:        helperStubs,
-		Assumptions:  []string{"FromBuiltinStatefulSet (a JSON round trip) is replaced by a field-copying model during symbolic execution; the real function runs in the native replay", "the pod and claim clients are not implemented by the fakes: any call to them crashes the harness"},
+		Stubs:        nil,
+		Assumptions:  []string{"FromBuiltinStatefulSet runs for real; encoding/json over API objects is the engine's structural model (see C19 round-trip runs), the native replay uses the real package", "the pod and claim clients are not implemented by the fakes: any call to them crashes the harness"},
 		OutsideClaim: []string{"more than two interruptions", "arbitrary selectors and label sets (four fixed shapes)"},
 	})
 
@@ -386,9 +399,20 @@ func init() {
 					return "SetObjectDefaults_StatefulSet twice on an object varied over: container env fieldRef, probes with arbitrary int32 timings and HTTP/gRPC actions, lifecycle hook"
 				},
 				Asserts: []string{"defaulting twice equals defaulting once"}, Covers: []string{"defaulted"}},
+			rtRun(0, "metadata: labels and annotations nil / empty / populated with symbolic values, arbitrary generation, resourceVersion, generateName, finalizers nil / empty / two, owner references none / empty / one with symbolic controller and blockOwnerDeletion flags, deletion timestamp and grace period"),
+			rtRun(1, "spec: replicas and history limit nil or arbitrary int32, selector nil / empty / matchLabels / one expression, service name, arbitrary policy and strategy strings, rollingUpdate nil / empty / arbitrary partition / with the unmodelled maxUnavailable, claim templates nil / empty / one"),
+			rtRun(2, "pod template: labels, annotations, image, pull policy, ports nil / empty / one with arbitrary port, env value or fieldRef, grace period, hostNetwork, restart policy, init container, security context nil / empty / runAsUser"),
+			rtRun(3, "status: all counters arbitrary, revisions, collision count nil or arbitrary, conditions nil / empty / one, the unmodelled availableReplicas"),
+			{Name: "list-round-trip", Pkg: pkgHelper, Func: "VH_ListRoundTrip", Quick: []int{2}, Thorough: []int{3},
+				Bounds: func(a []int) string {
+					return fmt.Sprintf("ToBuiltinStetefulsetList over lists of 0..%d items (nil and empty Items) with arbitrary status counters, list resourceVersion / continue token / remainingItemCount present or not", a[0])
+				},
+				Asserts: []string{"lists keep their length", "lists keep their order", "list metadata (resourceVersion, continue token, remaining count) survives", "list items are typed apps/v1"},
+				Covers:  []string{"list of 0", "list of 2"}},
 		},
-		Assumptions:  []string{"encoding/json round trip of []int32 is lossless (std library contract)", "resource lists are nil (quantity rounding uses arbitrary-precision decimals)"},
-		OutsideClaim: []string{"clause (a) of the statement - a built-in StatefulSet written through the hijack client and read back is unchanged, conversion never fails - is a statement about encoding/json over the whole schema and is not decided (DESIGN.md section 6)", "template content beyond the modelled fields"},
+		Assumptions: []string{"encoding/json round trip of []int32 is lossless (std library contract)", "resource lists are nil (quantity rounding uses arbitrary-precision decimals)",
+			"round-trip runs: encoding/json over API objects is the engine's structural model (fields matched by JSON name, omitempty, flattened embedded structs, null handling; types with their own MarshalJSON - Time, Quantity, IntOrString - are copied); the native replay of the sampled paths runs the real package and must produce the same trace"},
+		OutsideClaim: []string{"clause (a) beyond the modelled schema: the round-trip runs vary the fields listed in their bounds; other template content (volumes, probes, affinity, ...) is not varied there", "the hijack client's Create/Update path composes this conversion with defaulting (decided separately by the defaulting runs)"},
 	})
 
 	register(&spec{
@@ -451,10 +475,10 @@ func init() {
 		Runs: []runSpec{
 			{Name: "migrate", Pkg: pkgCtl, Func: "VH_Migrate", Quick: []int{2}, Thorough: []int{3},
 				Bounds: func(a []int) string {
-					return fmt.Sprintf("four reconciles (with garbage-collector steps that orphan one revision at a time, and kubelet steps, between) on the world the upgrade helper leaves behind: %d pods at the current or update revision consistent with a partition in [0,%d], owned by nobody or still by the built-in UID, one or two marker-only orphan revisions, both policies", a[0], a[0])
+					return fmt.Sprintf("four reconciles (with garbage-collector steps that orphan one revision at a time, and kubelet steps, between) on the world the upgrade helper leaves behind: %d pods at the current or update revision consistent with a partition in [0,%d], owned by nobody or still by the built-in UID, one or two marker-only orphan revisions (hash labels computed under collision count 0) while status.collisionCount is nil, 0 or 1, both policies", a[0], a[0])
 				},
 				Asserts: []string{"the update revision resolves to the adopted built-in revision", "every marked revision is adopted", "revisions are label-synced before they are adopted", "every pod ends up adopted by the Advanced set", "the pod population is unchanged"},
-				Covers:  []string{"migration reconciled"}},
+				Covers:  []string{"migration reconciled", "the built-in set saw a hash collision"}},
 			{Name: "migrate-with-a-failing-revision-write", Pkg: pkgCtl, Func: "VH_Migrate", Quick: []int{2, 1}, Thorough: []int{3, 1},
 				Bounds: func(a []int) string {
 					return fmt.Sprintf("as above (%d pods) with one failing label-sync or adoption write (server error or conflict)", a[0])
@@ -480,9 +504,9 @@ func init() {
 				Asserts: []string{"events arrive in order with their type", "every event the consumer waits for is delivered", "no goroutine is left behind after the consumer stopped or the source ended", "the result channel is closed after the consumer stopped or the source ended"},
 				Covers:  []string{"watch shut down"}},
 		},
-		Stubs:        helperStubs,
+		Stubs:        nil,
 		Preempt:      [2]int{2, 3},
-		Assumptions:  []string{"ToBuiltinStatefulSet (a JSON round trip) is replaced by a field-copying model during symbolic execution", "context switches happen only at synchronisation operations (exact for race-free code)", "utilruntime.ReallyCrash is switched off in the harness so that a panic of the relay goroutine is observable as a lost event instead of killing the test binary; natively the interleaving is the Go scheduler's, goroutine leaks are observed through runtime.NumGoroutine after a pause"},
+		Assumptions:  []string{"ToBuiltinStatefulSet runs for real; encoding/json over API objects is the engine's structural model (see C19 round-trip runs), the native replay uses the real package; the harness compares each relayed object with an independent field-copying reference", "context switches happen only at synchronisation operations (exact for race-free code)", "utilruntime.ReallyCrash is switched off in the harness so that a panic of the relay goroutine is observable as a lost event instead of killing the test binary; natively the interleaving is the Go scheduler's, goroutine leaks are observed through runtime.NumGoroutine after a pause"},
 		OutsideClaim: []string{"longer event sequences, more than the bounded number of scheduling points"},
 	})
 }
